@@ -161,6 +161,36 @@ func (s *Server) Ask(fields ...string) (string, error) {
 	return strings.TrimRight(line, "\n"), nil
 }
 
+// AskJSON sends the fields as a JSON array (servers that support it: py,
+// pyold), so that they may contain tabs. Newlines are still excluded.
+func (s *Server) AskJSON(fields ...string) (string, error) {
+	for _, f := range fields {
+		if strings.ContainsAny(f, "\n\r") {
+			return "", fmt.Errorf("oracle %s: field contains a newline", s.Kind)
+		}
+	}
+	b, err := json.Marshal(fields)
+	if err != nil {
+		return "", err
+	}
+	s.mu.Lock()
+	defer s.mu.Unlock()
+	if s.dead != nil {
+		return "", s.dead
+	}
+	if _, err := io.WriteString(s.in, "J"+string(b)+"\n"); err != nil {
+		s.dead = fmt.Errorf("oracle %s: write: %w", s.Kind, err)
+		return "", s.dead
+	}
+	line, err := s.out.ReadString('\n')
+	if err != nil {
+		s.dead = fmt.Errorf("oracle %s: read: %w", s.Kind, err)
+		return "", s.dead
+	}
+	s.Queries++
+	return strings.TrimRight(line, "\n"), nil
+}
+
 // Ask2 is for the npm server, which answers "<new>\t<old>".
 func (s *Server) Ask2(fields ...string) (newer, older string, err error) {
 	r, err := s.Ask(fields...)
